@@ -593,6 +593,14 @@ func (c13) Generate(r *rand.Rand, t string) []*Case {
 	// (7) Custom groups with only one delimiter are never null (c13_custom.go)
 	out = append(out, c13HalfCases()...)
 
+	// (8) maps and Dicts of the caller that change after they were passed in (c13_live.go)
+	for i, n := 0, tier(t, 2500, 60000); i < n; i++ {
+		out = append(out, c13LiveListCase(r, cons))
+	}
+	for i, n := 0, tier(t, 800, 20000); i < n; i++ {
+		out = append(out, c13LiveProgramCase(r))
+	}
+
 	// (5) programs
 	np := tier(t, 3000, 60000)
 	for i := 0; i < np; i++ {
@@ -1288,6 +1296,8 @@ func (c13) Oracle(c *Case, got []hist.Obs) string {
 		return c13gOracle(c, got)
 	case "half":
 		return c13HalfOracle(c, got)
+	case "live":
+		return c13LiveOracle(c, got)
 	case "list":
 		if len(got) != 2 {
 			return fmt.Sprintf("expected 2 observations, got %d", len(got))
